@@ -53,6 +53,7 @@ class F:
             self.shape_pad = tuple(int(x) for x in r.shape_pad)
             self.stored = [int(k) for k in r.stored_header_keys]
             self.template_keys = [int(k) for k in r.segy_traceheader_template]
+            self.consts = [k for k in self.template_keys if k not in self.stored]
             self.ilines = None if r.is_2d else [int(x) for x in r.ilines]
             self.xlines = None if r.is_2d else [int(x) for x in r.xlines]
             self.zs = [float(z) for z in r.zslices]
@@ -183,6 +184,7 @@ def reader_kinds(f):
             'read_subplane': ((0, 5, 0, ns), (6, nt, 3, ns - 1)),
             'gen_trace_header': ((1,), (nt - 1,)), 'gen_trace_header_all': ((0,), (2,)),
             'get_tracefield_values': ((f.stored[0],), (f.stored[-1],)),
+            'get_tracefield_values_const': ((f.consts[0],), (f.consts[-1],)),
             'read_inline': ((0,), (1,)),
         }
         return K
@@ -196,7 +198,7 @@ def reader_kinds(f):
         'read_correlated_diagonal': ((0,), (-2,)), 'read_anticorrelated_diagonal': ((3,), (nx + 1,)),
         'read_inline_number': ((f.ilines[2],), (f.ilines[-1],)), 'read_crossline_number': ((f.xlines[0],), (f.xlines[5],)),
         'gen_trace_header': ((1,), (nt - 1,)), 'gen_trace_header_all': ((0,), (5,)),
-        'get_tracefield_values': ((f.stored[0],), (f.stored[-1],)),
+        'get_tracefield_values': ((f.stored[0],), (f.stored[-1],)), 'get_tracefield_values_const': ((f.consts[0],), (f.consts[-1],)),
         'read_zslice_oob': ((ns,), (-1,)), 'get_trace_by_coord': ((2, f.zs[1], f.zs[6]), (nt - 2, f.zs[0], f.zs[3])),
     }
     return K
@@ -206,7 +208,7 @@ def emu_kinds(f):
     if f.is2d:
         nt = f.tc
         return {'e_trace': ((2,), (nt - 1,)), 'e_trace_slice': ((slice(0, 3),), (slice(4, 9, 2),)), 'e_header': ((0,), (-1,)),
-                'e_attr': ((f.stored[0],), (f.stored[-1],)), 'e_iline': ((0,), (1,))}
+                'e_attr': ((f.stored[0],), (f.consts[0],)), 'e_iline': ((0,), (1,))}
     ni, nx, ns, nt = f.n_il, f.n_xl, f.n_s, f.tc
     dz = int(round(f.zs[1] - f.zs[0]))
     return {
@@ -214,14 +216,14 @@ def emu_kinds(f):
         'e_iline_slice': ((slice(f.ilines[0], f.ilines[3]),), (slice(None, None, None),)),
         'e_depth': ((2,), (ns - 1,)), 'e_trace': ((3,), (-1,)), 'e_trace_slice': ((slice(0, 4),), (slice(nt - 3, nt),)),
         'e_header': ((0,), (nt - 1,)), 'e_header_slice': ((slice(1, 3),), (slice(0, nt, 7),)),
-        'e_attr': ((f.stored[0],), (f.stored[-1],)),
+        'e_attr': ((f.stored[0],), (f.consts[0],)),
         'e_subvol': ((slice(f.ilines[0], f.ilines[2]), slice(f.xlines[1], f.xlines[4]), slice(0, 4 * dz)),
                      (slice(f.ilines[3], None), slice(None, None), slice(2 * dz, 6 * dz))),
     }
 
 
 def mkop(kind, args):
-    base = {'get_trace_oob': 'get_trace', 'get_trace_win': 'get_trace', 'read_zslice_oob': 'read_zslice',
+    base = {'get_tracefield_values_const': 'get_tracefield_values', 'get_trace_oob': 'get_trace', 'get_trace_win': 'get_trace', 'read_zslice_oob': 'read_zslice',
             'e_trace_slice': 'e_trace', 'e_iline_slice': 'e_iline', 'e_header_slice': 'e_header'}.get(kind, kind)
     return (base,) + tuple(args)
 
@@ -360,6 +362,7 @@ def run_history(files, events, label, counting):
             oracle(paths[fidx], ev[2], kind == 'emu')
     clear_all_class_caches()
     tap = Tap()
+    fifo_sim, caps = {}, {}
     actors = []
     nrid = 0
     terms = []
@@ -374,6 +377,7 @@ def run_history(files, events, label, counting):
                 tap.attach(r, nrid)
                 actors.append(Actor('reader', fidx, nrid, r, cf, preload))
                 capv = cap if cap is not None else f.dcap
+                caps[nrid] = capv
                 terms.append(f'Open {fidx}%nat {"true" if preload else "false"} (Some {capv}%nat)')
                 nrid += 1
                 obs.append(None)
@@ -387,6 +391,7 @@ def run_history(files, events, label, counting):
                     tap.attach(getattr(e, nm), nrid + 1 + j)
                 actors.append(Actor('emu', 0, nrid, e, subs=subs))
                 capv = ev[1] if ev[1] is not None else f.dcap
+                caps[nrid] = capv
                 terms.append(f'OpenEmu 0%nat (Some {capv}%nat)')
                 nrid += 1 + len(names)
                 obs.append(None)
@@ -422,7 +427,7 @@ def run_history(files, events, label, counting):
                                 f'{"seismic_zfp.open object" if A.kind == "emu" else "reader"} it gives {describe(want)}'
                                 + ('' if got[0] != want[0] or got[0] == 'exc' else ' (values differ)'))
                 # ---- the model side of this operation
-                rid = A.rid if A.kind == 'reader' else A.subs[EMU_OF[op[0]]]
+                rid = A.rid if A.kind == 'reader' else A.subs.get(EMU_OF[op[0]], A.subs[None])
                 if op[0] == 'rvh':
                     flds = 'None' if op[2] is None else f'(Some {coq_ints(op[2])})'
                     terms.append(f'Cmd {rid}%nat (ReadVH {"true" if op[1] else "false"} {flds})')
@@ -457,7 +462,12 @@ def run_history(files, events, label, counting):
                     terms.append(f'Query {rid}%nat [{"; ".join(accs)}]')
                 # hand-model check: a chunk miss calls exactly the loader method Toy.chunk_body says
                 for i, e in enumerate(tap.log):
-                    if e['k'] == 'C' and e['hit'] is False:
+                    if e['k'] == 'C' and len(e['args']) != 4:
+                        if not R.distribution.get('chunk key shape differs from the model'):
+                            R.violation('corr', {'file': f.label, 'history': label, 'position': n, 'op': opkey(op)},
+                                        f'chunk cache key {e["args"]} has {len(e["args"])} components, the model key has 4 (ref_il, ref_xl, min_z, max_z)')
+                        R.count('chunk key shape differs from the model')
+                    elif e['k'] == 'C' and e['hit'] is False:
                         il, xl, z0, z1 = e['args']
                         if fA.bs[0] == 4 and fA.bs[1] == 4:
                             exp = ('read_and_decompress_chunk_range', [il + 4, xl + 4, z1, il, xl, z0, 0])
@@ -467,6 +477,15 @@ def run_history(files, events, label, counting):
                         if nxt is None or nxt['k'] != 'L' or (nxt['name'], nxt['args']) != exp:
                             R.violation('corr', {'file': f.label, 'history': label, 'position': n, 'op': opkey(op)},
                                         f'chunk miss {e["args"]} called {None if nxt is None else (nxt.get("name"), nxt.get("args"))}, model chunk_body says {exp}')
+                for e in tap.log:
+                    if e['k'] == 'C':       # metric only: would a FIFO table of the same capacity have answered differently?
+                        cap_, fifo_ = fifo_sim.setdefault(e['rid'], [caps.get(e['rid'], f.dcap), []])
+                        key_ = tuple(e['args'])
+                        if (key_ in fifo_) != bool(e['hit']):
+                            R.count('chunk accesses where FIFO and LRU differ')
+                        if key_ not in fifo_:
+                            fifo_.insert(0, key_)
+                            del fifo_[cap_:]
                 flat_obs = [({'L': 0, 'C': 1, 'M': 2}[e['k']], bool(e['hit'])) for e in tap.log if e['k'] in 'LCM']
                 reads = None
                 if A.kind == 'reader' and A.cfile is not None:
@@ -517,6 +536,21 @@ def pair_histories(f):
         ops = [mkop(k1, E[k1][0]), mkop(k2, E[k2][0]), mkop(k1, E[k1][0]), mkop(k2, E[k2][1]), mkop(k1, E[k1][1])]
         c = (1, 2, None)[j % 3]
         hs.append((f'emu-pair {k1},{k2} cache={c}', [('emu', c)] + [('op', 0, o) for o in ops]))
+    # LRU order: random walks over five chunks with small capacities (hit moves to front, miss evicts the oldest)
+    if not f.is2d:
+        gw = random.Random(a.seed * 13 + 5)
+        reps = []
+        for il in (0, f.bs[0], 2 * f.bs[0]):
+            for xl in (0, f.bs[1], 2 * f.bs[1]):
+                if il < f.n_il and xl < f.n_xl and f.structured:
+                    reps.append(il * f.n_xl + xl)
+        if not f.structured:
+            reps = [0, f.tc // 4, f.tc // 2, (3 * f.tc) // 4, f.tc - 1]
+        reps = reps[:5]
+        for c in (1, 2, 3):
+            for w in range(3 if quick else 12):
+                walk = [gw.choice(reps) for _ in range(30)]
+                hs.append((f'lru-walk cache={c} #{w}', [('open', bool(w % 2), c)] + [('op', 0, ('get_trace', i)) for i in walk]))
     # direct use of the public sticky read_variant_headers / cache-clearing commands around reads
     st = f.stored
     cmds = [('rvh', False, None), ('rvh', True, None), ('rvh', True, (st[0],)), ('clear_vh',), ('clear_cache',)]
@@ -603,7 +637,7 @@ def check_model():
            '  (rev (log (fst r)), map (fun x => match x with RUnit (Raise AssertErr) => 1%nat | RVal (Raise AssertErr) => 1%nat | _ => 0%nat end) (snd r)).')
     terms = [f'both {w} [{"; ".join(t)}]' for (_, _, w, t, _) in pending]
     try:
-        vals = coq_eval(['SZ.Model.Caches'], terms, shard=50, preamble=pre)
+        vals = coq_eval(['SZ.Lib.Py', 'SZ.Model.Caches'], terms, shard=50, preamble=pre)
     except CoqEvalError as e:
         R.violation('corr', {'stage': 'coqeval'}, 'the model could not be evaluated: ' + str(e)[-1500:])
         return
@@ -623,6 +657,8 @@ def check_model():
             if o is None:
                 continue
             R.count('corr_ops')
+            for lv, hit in o['flat']:
+                R.count(f"observed {('loader', 'chunk', 'mask')[lv]} {'hit' if hit else 'miss'}")
             pred = [(lv, hit) for lv, hit in m if lv in (0, 1, 2)]
             if pred != o['flat']:
                 R.violation('corr', {'file': flabel, 'history': label, 'position': o['n'], 'op': o['op'], 'terms': t},
